@@ -1,4 +1,4 @@
-import LoguruModel.Rotation.Spec
+import LoguruModel.Rotation.Ctime
 import LoguruModel.Driver
 /-! line-protocol driver of the Rotation area (C07, C19); see harness/c07.py for the grammar -/
 open Rotation Py
@@ -32,7 +32,8 @@ def parseCall (s : String) : Option CallIn :=
 
 def parseMsg (s : String) : Option Msg :=
   match ints s with
-  | some [utc, off, b, c] => some { stamp := ⟨utc, off⟩, bytes := b, chars := c }
+  | some [utc, off, b, c] => some { stamp := ⟨utc, off⟩, bytes := b, chars := c, disk := b }
+  | some [utc, off, b, c, d] => some { stamp := ⟨utc, off⟩, bytes := b, chars := c, disk := d }
   | _ => none
 
 def bits (bs : List Bool) : String := String.ofList (bs.map fun b => if b then '1' else '0')
@@ -112,6 +113,15 @@ def step (line : String) : String :=
     match w.toInt?, t.toInt? with
     | some w, some t => s!"ok {forwardWeekday t w}"
     | _, _ => "bad-op"
+  | ["ctime", plat, xa, mt, ct, atm] =>
+    -- get_ctime on a file with the given stat times; then set_ctime(ts = mtime + 1) followed by get_ctime
+    let p? : Option Platform := if plat == "l" then some .linuxXattr else if plat == "f" then some .noXattr else none
+    let x? : Option (Option Int) := if xa == "n" then some none else xa.toInt?.map some
+    match p?, x?, mt.toInt?, ct.toInt?, atm.toInt? with
+    | some p, some x, some mt, some ct, some atm =>
+      let m : FileMeta := { st := { st_mtime := mt, st_ctime := ct, st_atime := atm, st_birthtime := 0 }, crtime := x }
+      s!"ok {getCtime p m} {getCtime p (setCtime p true m (mt + 1))}"
+    | _, _, _, _, _ => "bad-op"
   | ["civil", z] =>
     match z.toInt? with
     | some z =>
